@@ -4,10 +4,11 @@ From Coq Require Import List Arith NArith ZArith Extraction ExtrOcamlBasic.
 From CelloV Require Import Generated Threads.
 
 Definition th_shared : bool := negb thr_exc_via_tls.
+Definition th_walk : bool := negb thr_mark_own_tls_only.
 Definition th_lstep := lstep thr_clear_on_catch.
-Definition th_gstep := gstep thr_clear_on_catch thr_trylock_busy_result th_shared.
-Definition th_run := run thr_clear_on_catch thr_trylock_busy_result th_shared.
-Definition th_rr := rr thr_clear_on_catch thr_trylock_busy_result th_shared.
+Definition th_gstep := gstep thr_clear_on_catch thr_trylock_busy_result th_shared th_walk.
+Definition th_run := run thr_clear_on_catch thr_trylock_busy_result th_shared th_walk.
+Definition th_rr := rr thr_clear_on_catch thr_trylock_busy_result th_shared th_walk.
 Definition th_ginit := ginit.
 Definition th_linit := linit.
 Definition th_all_done := all_done.
